@@ -1227,8 +1227,8 @@ Proof.
   destruct (completed_loop_ok fx beh (length (cq (set_processing true s))) _ _ H0) as (m1 & R1 & I1).
   rewrite E in R1, I1.
   simpl in R1, I1. exists m1. split; [exact R1|]. simpl fst.
-  eapply Inv_state; [exact I1| | | | | | | |];
-    destruct (wq s1); try destruct (closing s1); simpl; auto.
+  destruct (wq s1) eqn:Ew; [destruct (closing s1) eqn:Ecl|];
+    (eapply Inv_state; [exact I1| | | | | | | |]); simpl; auto; congruence.
 Qed.
 
 (* ---- receive side: nothing the send monitor looks at, except what callbacks do ---- *)
@@ -1266,14 +1266,14 @@ Proof.
   destruct (apis fx s1 _) as [s2 ev] eqn:E.
   change (ERecv b p nread msg flags :: ev) with ([ERecv b p nread msg flags] ++ ev).
   apply (okr_ignored m _ s1).
-  - repeat constructor. intros m0. reflexivity.
+  - repeat constructor.
   - eapply Inv_state; eauto.
   - intros m1 I1. rewrite <- E. now apply apis_ok.
 Qed.
 
 Lemma chunk_cbs_ok fx rbeh b : forall ms k s m, Inv s m -> okr m (chunk_cbs fx rbeh s b k ms).
 Proof.
-  induction ms as [|x ms IH]; intros k s m HI; simpl.
+  induction ms as [|x ms IH]; intros k s m HI; cbn [chunk_cbs].
   - now apply okr_nil.
   - destruct (recving s); [|now apply okr_nil].
     destruct (recv_cb fx rbeh s b (Chunk k) (m_len x) (Some (m_id x))
@@ -1314,4 +1314,367 @@ Proof.
       as [s2 e2] eqn:E2.
     simpl fst. apply (okr_ignored m ev _ e2 s2 Hig H1).
     intros m1 I1. rewrite <- E2. now apply recv_cb_ok.
+Qed.
+
+Lemma recv_round_ok fx rbeh s m b len count s2 ev nread c' :
+  Inv s m -> recv_round fx rbeh s b len count = (s2, ev, nread, c') -> okr m (s2, ev).
+Proof.
+  intros HI. unfold recv_round. destruct (mmsg s).
+  - pose proof (udp_recvmmsg_ok fx rbeh s m b len HI) as H.
+    destruct (udp_recvmmsg fx rbeh s b len) as [[s1 e1] nr] eqn:E. simpl in H.
+    intros Heq. inversion Heq; subst. exact H.
+  - destruct (recv_retry (fun a => ERSys false 1 (rclamp 1 a)) (orv s)) as [[a0 e0] o'] eqn:E.
+    pose proof (recv_retry_ignored _ (fun a => ersys_ignored false 1 1 a) _ _ _ _ E) as Hig.
+    pose proof (Inv_set_orv s m o' (allocs s) HI) as H1.
+    destruct (rclamp 1 a0) as [[|x ms]|e].
+    + destruct (recv_cb fx rbeh (set_orv o' (allocs s) s) b Whole 0 None 0) as [s3 e3] eqn:E3.
+      intros Heq. inversion Heq; subst.
+      apply (okr_ignored m e0 _ e3 s2 Hig H1). intros m1 I1. rewrite <- E3. now apply recv_cb_ok.
+    + destruct (recv_cb fx rbeh (set_orv o' (allocs s) s) b Whole (m_len x) (Some (m_id x)) (msg_flags x))
+        as [s3 e3] eqn:E3.
+      intros Heq. inversion Heq; subst.
+      apply (okr_ignored m e0 _ e3 s2 Hig H1). intros m1 I1. rewrite <- E3. now apply recv_cb_ok.
+    + destruct (recv_cb fx rbeh (set_orv o' (allocs s) s) b Whole (if e =? EAGAIN then 0 else - e) None 0)
+        as [s3 e3] eqn:E3.
+      intros Heq. inversion Heq; subst.
+      apply (okr_ignored m e0 _ e3 s2 Hig H1). intros m1 I1. rewrite <- E3. now apply recv_cb_ok.
+Qed.
+
+Lemma okr_cons_ignored m e s ev : ignored e -> okr m (s, ev) -> okr m (s, e :: ev).
+Proof. intros Hi (m' & R & I). exists m'. simpl in *. rewrite Hi. auto. Qed.
+
+Lemma recvmsg_loop_ok fx rbeh : forall fuel s m count,
+  Inv s m -> okr m (recvmsg_loop fx fuel rbeh s count).
+Proof.
+  induction fuel as [|f IH]; intros s m count HI; cbn [recvmsg_loop].
+  - now apply okr_nil.
+  - set (len := match allocs s with [] => 0 | l :: _ => l end).
+    set (s0 := set_ctr (next_seq s) (next_id s) (S (next_buf s)) (ncb s) (nrcb s)
+                       (set_orv (orv s) (tl (allocs s)) s)).
+    assert (H0 : Inv s0 m) by (eapply Inv_state; eauto).
+    assert (Hal : ignored (EAlloc (next_buf s) len)) by (intros m0; reflexivity).
+    destruct (len <=? 0).
+    + destruct (recv_cb fx rbeh s0 (next_buf s) Whole UV_ENOBUFS None 0) as [s1 e1] eqn:E1.
+      apply okr_cons_ignored; auto. rewrite <- E1. now apply recv_cb_ok.
+    + destruct (recv_round fx rbeh s0 (next_buf s) len count) as [[[s2 ev] nread] c'] eqn:E.
+      pose proof (recv_round_ok _ _ _ _ _ _ _ _ _ _ _ H0 E) as H2.
+      destruct (negb (nread =? -1) && (0 <? c') && negb (closing s2) && recving s2).
+      * destruct (recvmsg_loop fx f rbeh s2 c') as [s3 ev'] eqn:E3.
+        apply okr_cons_ignored; auto.
+        apply (okr_bind m s2 ev s3 ev' H2). intros m1 I1. rewrite <- E3. now apply IH.
+      * apply okr_cons_ignored; auto.
+Qed.
+
+Lemma udp_io_ok fx beh rbeh s m rin rout : Inv s m -> okr m (udp_io fx beh rbeh s rin rout).
+Proof.
+  intros HI. unfold udp_io.
+  assert (H1 : okr m (if rin then udp_recvmsg fx rbeh s else (s, []))).
+  { destruct rin; [now apply recvmsg_loop_ok|now apply okr_nil]. }
+  destruct (if rin then udp_recvmsg fx rbeh s else (s, [])) as [s1 e1].
+  destruct (rout && negb (closing s1)); [|exact H1].
+  destruct (udp_sendmsg fx s1) as [s2 e2] eqn:E2.
+  destruct (run_completed fx beh s2) as [s3 e3] eqn:E3.
+  apply (okr_bind m s1 e1 s3 (e2 ++ e3) H1). intros m1 I1.
+  apply (okr_bind m1 s2 e2 s3 e3).
+  - rewrite <- E2. now apply udp_sendmsg_ok.
+  - intros m2 I2. rewrite <- E3. now apply run_completed_ok.
+Qed.
+
+Lemma pending_ok fx beh rbeh : forall n s m, Inv s m -> okr m (pending fx n beh rbeh s).
+Proof.
+  induction n as [|n IH]; intros s m HI; simpl.
+  - now apply okr_nil.
+  - destruct (fed s); [|now apply okr_nil].
+    destruct (udp_io fx beh rbeh (set_fed false s) false true) as [s1 e1] eqn:E1.
+    destruct (pending fx n beh rbeh s1) as [s2 e2] eqn:E2.
+    apply (okr_bind m s1 e1 s2 e2).
+    + rewrite <- E1. apply udp_io_ok. now apply Inv_set_fed.
+    + intros m1 I1. rewrite <- E2. now apply IH.
+Qed.
+
+(* ---- close: nothing changes the queues of a closing handle except the completion run ---- *)
+Lemma api_closing fx s o : closing s = true -> fst (api fx s o) = s.
+Proof. intros H. destruct o; simpl; rewrite ?H; reflexivity. Qed.
+
+Lemma apis_closing fx : forall l s, closing s = true -> fst (apis fx s l) = s.
+Proof.
+  induction l as [|o l IH]; intros s H; simpl; [reflexivity|].
+  pose proof (api_closing fx s o H) as Ha. destruct (api fx s o) as [s1 e1]. simpl in Ha. subst s1.
+  pose proof (IH s H) as Hb. destruct (apis fx s l) as [s2 e2]. exact Hb.
+Qed.
+
+Lemma completed_loop_closing fx beh : forall fuel s,
+  closing s = true -> wq s = [] -> (length (cq s) <= fuel)%nat ->
+  let s' := fst (completed_loop fx fuel beh s) in
+  cq s' = [] /\ wq s' = [] /\ closing s' = true.
+Proof.
+  induction fuel as [|f IH]; intros s Hc Hw Hl; simpl.
+  - destruct (cq s); [auto|simpl in Hl; lia].
+  - destruct (cq s) as [|r c] eqn:Ec; [simpl; auto|].
+    match goal with |- context [apis fx ?S2 ?B] => set (s2 := S2); set (bb := B) end.
+    pose proof (apis_closing fx bb s2 Hc) as Ha.
+    destruct (apis fx s2 bb) as [s3 ev]. simpl in Ha. subst s3.
+    specialize (IH s2 Hc Hw). simpl in IH, Hl.
+    destruct (completed_loop fx f beh s2) as [s4 ev']. simpl. apply IH. lia.
+Qed.
+
+Lemma run_completed_closing fx beh s :
+  closing s = true -> wq s = [] ->
+  let s' := fst (run_completed fx beh s) in cq s' = [] /\ wq s' = [].
+Proof.
+  intros Hc Hw. unfold run_completed.
+  pose proof (completed_loop_closing fx beh (length (cq (set_processing true s)))
+                (set_processing true s) Hc Hw (le_n _)) as H.
+  destruct (completed_loop fx _ beh (set_processing true s)) as [s1 ev]. simpl in H.
+  destruct H as (H1 & H2 & H3). simpl. rewrite H2, H3. simpl. auto.
+Qed.
+
+Lemma Inv_cancel s m :
+  Inv s m -> m_closed m = true ->
+  Inv (set_queues [] (cq s ++ map (fun r => with_status r UV_ECANCELED) (wq s))
+                  (sq_size s) (sq_count s) s) m.
+Proof.
+  intros HI Hcl. destruct HI.
+  match goal with |- Inv ?S _ => assert (Hs : strips S = strips s) end.
+  { unfold strips. simpl. rewrite app_nil_r, !map_app. f_equal.
+    apply (strip_status (wq s) (fun _ => UV_ECANCELED)). }
+  constructor; rewrite ?Hs; auto; simpl.
+  - constructor.
+  - apply Forall_app. split; [exact i_cq0|].
+    apply Forall_forall. intros r' Hr'. apply in_map_iff in Hr'. destruct Hr' as (r & Er & Hr).
+    subst r'. unfold cq_ok. simpl. split.
+    + apply hand_not_in; auto. rewrite Forall_forall in i_hwq0. exact (i_hwq0 r Hr).
+    + right. auto.
+Qed.
+
+Lemma finish_close_ok fx beh s m :
+  Inv s m -> m_closed m = true -> closing s = true -> okr m (finish_close fx beh s).
+Proof.
+  intros HI Hm Hc. unfold finish_close.
+  set (s1 := set_queues [] (cq s ++ map (fun r => with_status r UV_ECANCELED) (wq s))
+                        (sq_size s) (sq_count s) s).
+  pose proof (Inv_cancel s m HI Hm) as H1. fold s1 in H1.
+  pose proof (run_completed_closing fx beh s1 Hc eq_refl) as Hq.
+  destruct (run_completed_ok fx beh s1 m H1) as (m2 & R2 & I2).
+  destruct (run_completed fx beh s1) as [s2 ev]. simpl in Hq, R2, I2. destruct Hq as (Q1 & Q2).
+  exists m2. simpl snd. split.
+  - apply mon_run_snoc_ignored; [exact R2|]. simpl.
+    rewrite (i_owed _ _ I2). unfold strips. now rewrite Q1, Q2.
+  - simpl fst. eapply Inv_state; eauto.
+Qed.
+
+Lemma run_once_ok fx beh rbeh s m kin kout : Inv s m -> okr m (run_once fx beh rbeh s kin kout).
+Proof.
+  intros HI. unfold run_once.
+  destruct (pending fx 1 beh rbeh s) as [s1 e1] eqn:E1.
+  destruct (if (kin && pin s1) || (kout && pout s1)
+            then udp_io fx beh rbeh s1 (kin && pin s1) (kout && pout s1) else (s1, []))
+    as [s2 e2] eqn:E2.
+  destruct (pending fx 8 beh rbeh s2) as [s3 e3] eqn:E3.
+  destruct (if close_pending s3
+            then finish_close fx beh (set_io (pin s3) (pout s3) (fed s3) (active s3) (closing s3) false s3)
+            else (s3, [])) as [s4 e4] eqn:E4.
+  apply okr_cons_ignored; [intros m0; reflexivity|].
+  apply (okr_bind m s1 e1 s4 (e2 ++ e3 ++ e4)).
+  { rewrite <- E1. now apply pending_ok. }
+  intros m1 I1. apply (okr_bind m1 s2 e2 s4 (e3 ++ e4)).
+  { rewrite <- E2. destruct ((kin && pin s1) || (kout && pout s1)); [now apply udp_io_ok|now apply okr_nil]. }
+  intros m2 I2. apply (okr_bind m2 s3 e3 s4 e4).
+  { rewrite <- E3. now apply pending_ok. }
+  intros m3 I3. rewrite <- E4. destruct (close_pending s3) eqn:Ecp; [|now apply okr_nil].
+  apply finish_close_ok.
+  - eapply Inv_state; eauto; simpl; discriminate.
+  - now apply (i_cl _ _ I3).
+  - simpl. now apply (i_cl2 _ _ I3).
+Qed.
+
+Lemma run_ok fx beh rbeh : forall l s m, Inv s m -> okr m (run fx beh rbeh s l).
+Proof.
+  induction l as [|o l IH]; intros s m HI.
+  - now apply okr_nil.
+  - assert (Hgen : forall s1 e1, okr m (s1, e1) ->
+                    okr m (let '(s2, e2) := run fx beh rbeh s1 l in (s2, e1 ++ e2))).
+    { intros s1 e1 H1. destruct (run fx beh rbeh s1 l) as [s2 e2] eqn:E2.
+      apply (okr_bind m s1 e1 s2 e2 H1). intros m1 I1. rewrite <- E2. now apply IH. }
+    destruct o; cbn [run];
+      try (match goal with |- okr m (let '(_, _) := api fx s ?O in _) =>
+             pose proof (api_ok fx s m O HI) as Ha; destruct (api fx s O) as [s1 e1]; now apply Hgen end).
+    pose proof (run_once_ok fx beh rbeh s m kin kout HI) as Ha.
+    destruct (run_once fx beh rbeh s kin kout) as [s1 e1]. now apply Hgen.
+Qed.
+
+Lemma Inv_init conn mm o r al : Inv (init conn mm o r al) mon0.
+Proof. constructor; simpl; auto; try constructor; try discriminate. Qed.
+
+(* every trace of the model is accepted by the send monitor *)
+Theorem model_accepted_send fx beh rbeh conn mm o r al ops :
+  exists m, mon_run mon0 (snd (run fx beh rbeh (init conn mm o r al) ops)) = Some m.
+Proof.
+  destruct (run_ok fx beh rbeh ops _ _ (Inv_init conn mm o r al)) as (m & R & _). eauto.
+Qed.
+
+(* ------------------------------------------------------------------ *)
+(* Part C.  What an accepted trace satisfies. *)
+
+Lemma hand_all_inv : forall l hs hs',
+  hand_all hs l = Some hs' ->
+  hs' = rev l ++ hs /\ StronglySorted lt l /\ Forall (fun x => (hmax hs <= x)%nat) l.
+Proof.
+  induction l as [|x l IH]; intros hs hs' H; simpl in H.
+  - inversion H; subst. repeat split; constructor.
+  - destruct (newer hs x) eqn:En; [|discriminate]. apply newer_hmax in En.
+    destruct (IH _ _ H) as (E & Hs & Hf). simpl in Hf.
+    split; [simpl; now rewrite <- app_assoc|]. split.
+    + constructor; auto; try (eapply Forall_impl; [|exact Hf]; simpl; intros; lia).
+    + constructor; auto; try (eapply Forall_impl; [|exact Hf]; simpl; intros; lia).
+Qed.
+
+(* the monitor's record of what was handed over is the trace's *)
+Lemma mon_step_hand m e m' :
+  mon_step m e = Some m' ->
+  hand_all (m_hand m) (handed_by e) = Some (m_hand m').
+Proof.
+  destruct e; simpl; intros H; try (inversion H; subst; reflexivity).
+  - destruct (ret =? 0); [destruct (m_next m <=? id)%nat|]; inversion H; reflexivity.
+  - destruct a as [r|p]; simpl in *.
+    + unfold mon_sys in H. simpl in H. destruct (newer (m_hand m) seq); inversion H; reflexivity.
+    + unfold mon_sys in H. destruct (real_err (Z.pos p)); inversion H; reflexivity.
+  - destruct a as [r|p]; simpl in *.
+    + unfold mon_sys in H. destruct (hand_all (m_hand m) (firstn (N.to_nat r) seqs)); inversion H; reflexivity.
+    + unfold mon_sys in H. destruct (real_err (Z.pos p)); [destruct seqs|]; inversion H; reflexivity.
+  - destruct (find_owed id (m_owed m)) as [[sq ln]|]; [|discriminate].
+    destruct (cb_ok m sq status); inversion H; reflexivity.
+  - destruct (_ && _); inversion H; reflexivity.
+  - destruct (m_owed m); inversion H; reflexivity.
+Qed.
+
+Lemma mon_run_hand : forall tr m m',
+  mon_run m tr = Some m' -> hand_all (m_hand m) (handed tr) = Some (m_hand m').
+Proof.
+  induction tr as [|e tr IH]; intros m m' H; simpl in H.
+  - inversion H; reflexivity.
+  - destruct (mon_step m e) as [m1|] eqn:E; [|discriminate].
+    unfold handed. simpl. fold (handed tr). rewrite hand_all_app, (mon_step_hand _ _ _ E).
+    now apply IH.
+Qed.
+
+(* C10_send_once_in_order *)
+Theorem accepted_once_in_order tr m :
+  mon_run mon0 tr = Some m -> StronglySorted lt (handed tr).
+Proof.
+  intros H. apply mon_run_hand in H. apply hand_all_inv in H. tauto.
+Qed.
+
+(* requests accepted by uv_udp_send / callbacks run, by request id *)
+Definition sub_of (e : event) : list nat :=
+  match e with ESend id _ _ ret => if ret =? 0 then [id] else [] | _ => [] end.
+Definition cb_of (e : event) : list nat :=
+  match e with ECb id _ => [id] | _ => [] end.
+Definition subs (tr : list event) : list nat := flat_map sub_of tr.
+Definition cbs (tr : list event) : list nat := flat_map cb_of tr.
+
+Definition oid (k : okey) : nat := fst (fst k).
+
+Record Ghost (m : mon) (S C : list nat) : Prop := mkGhost {
+  g_ndS : NoDup S;
+  g_ndC : NoDup C;
+  g_next : Forall (fun i => (i < m_next m)%nat) S;
+  g_union : forall i, In i S <-> In i (map oid (m_owed m)) \/ In i C;
+  g_disj : forall i, In i (map oid (m_owed m)) -> ~ In i C
+}.
+
+Lemma find_owed_in id l sq ln : find_owed id l = Some (sq, ln) -> In (id, sq, ln) l.
+Proof.
+  induction l as [|[[i s] n] l IH]; simpl; [discriminate|].
+  destruct (i =? id)%nat eqn:E.
+  - apply Nat.eqb_eq in E. intros H; inversion H; subst. now left.
+  - intros H. right. now apply IH.
+Qed.
+
+Lemma in_drop_owed id l i : In i (map oid (drop_owed id l)) <-> In i (map oid l) /\ i <> id.
+Proof.
+  unfold drop_owed. rewrite !in_map_iff. split.
+  - intros (k & Ek & Hk). apply filter_In in Hk. destruct Hk as (Hk & Hne).
+    apply negb_true_iff, Nat.eqb_neq in Hne. subst i. split; [exists k; auto|exact Hne].
+  - intros ((k & Ek & Hk) & Hne). exists k. split; auto. apply filter_In. split; auto.
+    apply negb_true_iff, Nat.eqb_neq. subst i. exact Hne.
+Qed.
+
+Lemma NoDup_snoc {A} (l : list A) x : NoDup l -> ~ In x l -> NoDup (l ++ [x]).
+Proof.
+  induction l as [|a l IH]; simpl; intros Hn Hx.
+  - repeat constructor; auto.
+  - inversion Hn; subst. constructor.
+    + rewrite in_app_iff. simpl. intros [H|[H|[]]]; [auto|subst; apply Hx; now left].
+    + apply IH; auto.
+Qed.
+
+Lemma ghost_step m e m' S C :
+  Ghost m S C -> mon_step m e = Some m' -> Ghost m' (S ++ sub_of e) (C ++ cb_of e).
+Proof.
+  intros G H.
+  assert (Same : m_owed m' = m_owed m -> m_next m' = m_next m -> sub_of e = [] -> cb_of e = [] ->
+                 Ghost m' (S ++ sub_of e) (C ++ cb_of e)).
+  { intros E1 E2 E3 E4. rewrite E3, E4, !app_nil_r. destruct G. constructor; rewrite ?E1, ?E2; auto. }
+  destruct e; simpl in H; try (inversion H; subst; now apply Same).
+  - simpl. destruct (ret =? 0); [|inversion H; subst; now apply Same].
+    destruct (m_next m <=? id)%nat eqn:En; [|discriminate]. apply Nat.leb_le in En.
+    inversion H; subst. clear H. destruct G. rewrite app_nil_r.
+    assert (Hfresh : ~ In id S).
+    { intros Hin. rewrite Forall_forall in g_next0. apply g_next0 in Hin. lia. }
+    constructor; simpl; auto.
+    + now apply NoDup_snoc.
+    + apply Forall_app. split; [|repeat constructor].
+      eapply Forall_impl; [|exact g_next0]. simpl. intros; lia.
+    + intros i. rewrite map_app, !in_app_iff, g_union0. simpl. tauto.
+    + intros i Hi. rewrite map_app, in_app_iff in Hi. destruct Hi as [Hi|[Hi|[]]]; [now apply g_disj0|].
+      simpl in Hi. subst i. intros Hc. apply Hfresh. apply g_union0. now right.
+  - unfold mon_sys in H. destruct a as [r|p]; simpl in H.
+    + destruct (newer (m_hand m) seq); inversion H; subst. now apply Same.
+    + destruct (real_err (Z.pos p)); inversion H; subst; now apply Same.
+  - unfold mon_sys in H. destruct a as [r|p].
+    + destruct (hand_all (m_hand m) (firstn (N.to_nat r) seqs)); inversion H; subst. now apply Same.
+    + destruct (real_err (Z.pos p)); [destruct seqs|]; inversion H; subst; now apply Same.
+  - destruct (find_owed id (m_owed m)) as [[sq ln]|] eqn:Ef; [|discriminate].
+    destruct (cb_ok m sq status); [|discriminate]. inversion H; subst. clear H.
+    apply find_owed_in in Ef. apply (in_map oid) in Ef. unfold oid in Ef at 1. simpl in Ef.
+    destruct G. simpl. rewrite app_nil_r. constructor; simpl; auto.
+    + apply NoDup_snoc; auto.
+    + intros i. rewrite in_drop_owed, in_app_iff, g_union0. simpl.
+      destruct (Nat.eq_dec i id); [subst; tauto|tauto].
+    + intros i Hi. apply in_drop_owed in Hi. destruct Hi as (Hi & Hne).
+      rewrite in_app_iff. simpl. intros [Hc|[Hc|[]]]; [now apply (g_disj0 i)|congruence].
+  - destruct (_ && _); inversion H; subst. now apply Same.
+  - destruct (m_owed m); inversion H; subst. now apply Same.
+Qed.
+
+Lemma ghost_run : forall tr m m' S C,
+  Ghost m S C -> mon_run m tr = Some m' -> Ghost m' (S ++ subs tr) (C ++ cbs tr).
+Proof.
+  induction tr as [|e tr IH]; intros m m' S C G H; simpl in H.
+  - inversion H; subst. unfold subs, cbs. simpl. now rewrite !app_nil_r.
+  - destruct (mon_step m e) as [m1|] eqn:E; [|discriminate].
+    unfold subs, cbs. simpl. fold (subs tr). fold (cbs tr). rewrite !app_assoc.
+    apply (IH m1); auto. now apply ghost_step.
+Qed.
+
+Lemma ghost0 : Ghost mon0 [] [].
+Proof. constructor; simpl; try constructor; try tauto. Qed.
+
+(* C10_send_cb_exactly_once: at every point of an accepted trace the callbacks that have
+   run belong to distinct accepted requests; when close_cb runs none is outstanding *)
+Theorem accepted_cb_exactly_once tr m :
+  mon_run mon0 tr = Some m ->
+  forall pre post, tr = pre ++ post ->
+    NoDup (subs pre) /\ NoDup (cbs pre) /\ incl (cbs pre) (subs pre) /\
+    (forall post', post = EClosed :: post' -> incl (subs pre) (cbs pre)).
+Proof.
+  intros H pre post E. subst tr. rewrite mon_run_app in H.
+  destruct (mon_run mon0 pre) as [m1|] eqn:E1; [|discriminate].
+  pose proof (ghost_run pre mon0 m1 [] [] ghost0 E1) as G. simpl in G. destruct G.
+  split; [auto|]. split; [auto|]. split.
+  - intros i Hi. apply g_union0. now right.
+  - intros post' Ep. subst post. simpl in H.
+    destruct (m_owed m1) eqn:Eo; [|discriminate].
+    intros i Hi. apply g_union0 in Hi. simpl in Hi. tauto.
 Qed.
